@@ -14,6 +14,33 @@ CHECKS = {
    ref="5/C01"),
 }
 
+CHECKS.update({
+ "C02": dict(
+   level="model_checking",
+   technique="exhaustive enumeration of write programs (operation sequences x deviation-bounded value/filter/chunk choices x configuration matrix) executed on the real Writer and Reader, compared with a map reference model",
+   text="Every program of at most max_ops Writer operations over {Alloc, Put, WriteCompressed, OpenStream+Write*+Close, Put while a stream is open, Put(*Stream)} with at most dev_bound non-default value/filter/body choices is executed for every configuration of the plan (9 versions x human-readable x seekable x 4 password settings at depth 1-2; representative configurations deeper), reopened with the Reader (with user and owner password) and compared object by object with the model; every argument is snapshotted and compared after Close. States = accepted programs, transitions = executions, all of them run on the implementation.",
+   note="alphabets of src/checks/wprog (10 values, 8 bodies, 7 filter chains); the model is a Go map; AES-256 configurations are explored to depth 2 only (8 ms per file)",
+   ref="5/C02"),
+ "C03": dict(
+   level="model_checking",
+   technique="same exhaustive program exploration as C02; oracle = independent strict file parser, independent security handler and independent codecs",
+   text="The program space of C02; every produced file is judged by ref/pdffile (written from ISO 32000-2 7.5, no go-pdf code): header, %%EOF, startxref, 20-byte table entries / xref-stream W, Index, Size, every in-use offset exactly at 'N G obj', one entry per object below Size, Length up to the EOL before endstream, object-stream N/First/offset table, no object outside the xref; extracted values (decrypted with ref/stdsec, decoded with zlib/ascii85/lzw from outside go-pdf) equal the model.",
+   note="trusts ref/pdffile, ref/stdsec, ref/pdfsyn, compress/zlib, encoding/ascii85, compress/lzw, x/image/tiff/lzw; not judged because not in the statement: free-list threading, generation of object 0, the xref stream's own entry",
+   ref="5/C03"),
+ "C08": dict(
+   level="exploration",
+   technique="deviation-bounded exhaustive mutation (every single mutation at every position of every seed encoding, every single/pair parameter-dictionary corruption, every filter chain up to length 2) executed in single-threaded worker processes with panic/hang/allocation/goroutine oracles",
+   text="Every one-mutation neighbour of ~40 seed encodings per filter family (byte edits, truncations, insertions, header-claim edits, bombs), every type-confused parameter dictionary and every chain of length <=2 (plus 3, 8, 9 repeats) is decoded to the end in worker processes: result must be data or a malformed-input error, no panic, no hang (20 s watchdog, reproduced 5x), allocation within the budget functions of internal/limits, output within the geometry caps, goroutines back to baseline after Close.",
+   note="one mutation away from the seeds only; allocation measured as TotalAlloc growth against the documented budget functions with slack; time only as a hang watchdog; the error returned by Close is not judged",
+   ref="5/C08"),
+ "C09": dict(
+   level="exploration",
+   technique="exhaustive enumeration of (user password, owner password, try password) triples over a boundary alphabet x versions x permission sets, judged by an independent password-preparation and permission model",
+   text="All pairs of a 14-element password alphabet (empty, ASCII at the 32/33 and 127/128 byte edges, Latin-1, PDFDoc-only, non-encodable, SASLprep-mapped and prohibited) x 9 versions x metadata modes, and all 128 permission sets x versions x password pairs; each file is opened with every element of the alphabet; expected accept/reject and reported permissions come from ref/stdsec.Prepare and an independently written permission closure.",
+   note="trusts ref/stdsec password preparation (PDFDocEncoding, SASLprep per RFC 4013 with x/text NFKC) and the fixed object graph; try-passwords the revision cannot prepare are only required to fail",
+   ref="5/C09"),
+})
+
 NOT_YET = {}
 
 def main():
